@@ -427,6 +427,23 @@ class Replayer:
     def do_CvSetCtrlpoints(self, live, a):
         live[a["obj"]].ctrlpoints = self.mode.pts(a["points"])
 
+    def do_CvSetWeights(self, live, a):
+        live[a["obj"]].weights = self.mode.pts(a["weights"])
+
+    def do_KvConvert(self, live, a):
+        kv = live[a["obj"]]
+        cls = {"int": int, "Fraction": Fraction, "float": float}[a["cls"]]
+        r = kv.convert(cls)
+        return {"same": r is kv, "types": {type(x).__name__ for x in kv}, "cls": a["cls"]}
+
+    def cmp_KvConvert(self, live, t, val):
+        f = []
+        if not val["same"]:
+            f.append("convert() did not return the same instance")
+        if val["types"] - {val["cls"]}:
+            f.append(f"convert({val['cls']}) left knots of type {sorted(val['types'])}")
+        return f
+
     def do_CvSetKnotvector(self, live, a):
         live[a["obj"]].knotvector = self.mode.nums(a["kv"])
 
